@@ -224,7 +224,7 @@ type injector func(c *gen.Ctx, features map[string]string, done []Step, last boo
 // runInterleaved executes the history, calling inject at the checkpoints (dates of earlier
 // writes are known then), and returns the complete case.
 func runInterleaved(c *gen.Ctx, workload string, features map[string]string, hist []Step, checkpoints map[int]bool, inject injector) (In, Out) {
-	in := In{Workload: workload, Features: features}
+	in := In{Workload: workload, Prop: os.Getenv("VERIF_READS_PROP"), Features: features}
 	out := Out{Results: []string{}, Answers: []any{}}
 	r, err := newRunner(features)
 	if err != nil {
@@ -289,6 +289,9 @@ func registerWorkload(name string, one func(c *gen.Ctx) (In, Out)) {
 				}
 				if in.Workload != name {
 					continue
+				}
+				if p := os.Getenv("VERIF_READS_PROP"); p != "" {
+					in.Prop = p
 				}
 				in2, out := replayCase(in)
 				if err := c.Emit("reads", in2, out); err != nil {
